@@ -712,3 +712,90 @@ func (ex *Exec) atoiSigned(c *CallCtx, s StringV) []*callResult {
 }
 
 var _ = fmt.Sprintf
+
+// parseIntBase: digits of s in the given base (2, 8, 10, 16) by Horner; value (64-bit), syntax ok, fits in 64 bits unsigned.
+func parseDigitsBase(bs []*term.Term, base uint64) (val, synOK, rangeOK *term.Term) {
+	if len(bs) == 0 {
+		return term.Const(64, 0), term.False(), term.True()
+	}
+	n := term.Const(64, 0)
+	syn, rng := term.True(), term.True()
+	cutoff := ^uint64(0)/base + 1
+	for _, b := range bs {
+		isDec := term.And(term.Uge(b, term.Const(8, '0')), term.Ule(b, term.Const(8, '9')))
+		isLow := term.And(term.Uge(b, term.Const(8, 'a')), term.Ule(b, term.Const(8, 'z')))
+		isUp := term.And(term.Uge(b, term.Const(8, 'A')), term.Ule(b, term.Const(8, 'Z')))
+		d := term.Ite(isDec, term.Sub(b, term.Const(8, '0')), term.Ite(isLow, term.Sub(b, term.Const(8, 'a'-10)), term.Sub(b, term.Const(8, 'A'-10))))
+		ok := term.And(term.Or(isDec, isLow, isUp), term.Ult(d, term.Const(8, base)))
+		syn = term.And(syn, ok)
+		rng = term.And(rng, term.Ult(n, term.Const(64, cutoff)))
+		n10 := term.Mul(n, term.Const(64, base))
+		n1 := term.Add(n10, term.Zext(d, 56))
+		rng = term.And(rng, term.Uge(n1, n10))
+		n = n1
+	}
+	return n, syn, rng
+}
+
+func init() {
+	Stubs["strconv.ParseInt"] = func(ex *Exec, c *CallCtx) []*callResult {
+		s := c.Args[0].(StringV)
+		base, ok1 := ex.concreteInt(c.St, c.Args[1].(*term.Term), true)
+		bitSize, ok2 := ex.concreteInt(c.St, c.Args[2].(*term.Term), true)
+		if !ok1 || !ok2 {
+			abort("UNSUPPORTED", "ParseInt with symbolic base or bit size")
+		}
+		if bitSize == 0 {
+			bitSize = 64
+		}
+		if len(s.B) == 0 {
+			return c.ret(TupleV{term.Const(64, 0), ex.numError(c.St, "ParseInt", s, "ErrSyntax")})
+		}
+		j := &jsonCtx{ex, c} // byte predicates decided under the path facts
+		digits := s.B
+		neg := false
+		if j.eq(digits[0], '+') {
+			digits = digits[1:]
+		} else if j.eq(digits[0], '-') {
+			neg = true
+			digits = digits[1:]
+		}
+		b := uint64(base)
+		if base == 0 {
+			b = 10
+			if len(digits) > 1 && j.eq(digits[0], '0') {
+				switch {
+				case j.eq(digits[1], 'x') || j.eq(digits[1], 'X'):
+					b, digits = 16, digits[2:]
+				case j.eq(digits[1], 'o') || j.eq(digits[1], 'O'):
+					b, digits = 8, digits[2:]
+				case j.eq(digits[1], 'b') || j.eq(digits[1], 'B'):
+					b, digits = 2, digits[2:]
+				default:
+					b, digits = 8, digits[1:]
+				}
+			}
+			for _, d := range digits {
+				if j.is(term.Eq(d, term.Const(8, '_')), "an underscore") {
+					abort("UNSUPPORTED", "ParseInt base 0 with underscores")
+				}
+			}
+		}
+		if b != 2 && b != 8 && b != 10 && b != 16 {
+			abort("UNSUPPORTED", "ParseInt base %d", b)
+		}
+		val, synOK, rangeOK := parseDigitsBase(digits, b)
+		lim := uint64(1) << uint(bitSize-1)
+		var res, maxV *term.Term
+		if neg {
+			rangeOK = term.And(rangeOK, term.Ule(val, term.Const(64, lim)))
+			res = term.Neg(val)
+			maxV = term.Const(64, -lim)
+		} else {
+			rangeOK = term.And(rangeOK, term.Ule(val, term.Const(64, lim-1)))
+			res = val
+			maxV = term.Const(64, lim-1)
+		}
+		return ex.parseResults(c, "ParseInt", s, res, synOK, rangeOK, maxV)
+	}
+}
